@@ -366,6 +366,22 @@ def _check_concrete_circuit(p, name, c, with_tt=True, build_src=None):
             )
 
 
+def _observe(c):
+    """Read-only queries a user may interleave with edits."""
+    try:
+        a = {i: False for i in c.inputs}
+        c.evaluate_full_circuit(dict(a))
+        c.evaluate_circuit(dict(a))
+        c.evaluate([False] * len(c.inputs))
+        list(c.top_sort(inverse=True))
+        list(c.dfs())
+        c.format_circuit()
+        if len(c.inputs) <= 4:
+            c.get_truth_table()
+    except Exception:  # noqa: BLE001
+        pass
+
+
 def history_circuit(rnd, tag):
     """A circuit reached through a short history of public mutator calls (+ source that replays it)."""
     from checks import mutators
@@ -375,17 +391,19 @@ def history_circuit(rnd, tag):
     c = mutators.rebuild(c0)
     calls = []
     for step in range(rnd.randint(1, 4)):
-        call = mutators.random_call(rnd, c, step=step)
+        call = mutators.random_call(rnd, c, step=step, kinds=(mutators.KINDS + ["reinsert"] * 4))
         if call is None or call["kind"] == "copy":
             continue
         try:
+            _observe(c)  # queries between the edits (anything memoised by a query must not survive an edit)
             c = mutators.apply_call(c, call)
             calls.append(call)
         except Exception:  # noqa: BLE001
             break
     if circ.wf_problems(c, check_topsort=False):
         return None, None  # well-formedness is C02's business
-    src = circ.circ_src(c0) + f"\nfrom checks import mutators\nfor call in {calls!r}:\n    c = mutators.apply_call(c, call)\n"
+    src = (circ.circ_src(c0) + "\nfrom checks import mutators\nfrom checks.c01 import _observe\n" +
+           f"for call in {calls!r}:\n    _observe(c)\n    c = mutators.apply_call(c, call)\n")
     return c, src
 
 
